@@ -239,3 +239,70 @@ class Roles(object):
                 raise AnalysisError("role: expected one TaskScheduler method stepping tasks, found %d" % len(out))
             return out[0]
         return self._memo("continue_task", find)
+
+
+    # -- completion of a future through (chains of) self-calls --------------------------------
+    def completes_with(self, fi, _seen=None):
+        """If calling method fi completes `self` with one of its parameters, returns
+        (kind 'value'|'error', parameter name); else None.  Follows self-calls that forward the
+        parameter unchanged."""
+        seen = _seen if _seen is not None else set()
+        if fi.qualname in seen:
+            return None
+        seen.add(fi.qualname)
+        params = q.param_names(fi.node)
+        for c in q.calls(fi.node):
+            recv, name = q.attr_call(c)
+            if recv is None or q.dotted(recv) != "self" or not c.args or not isinstance(c.args[0], ast.Name) or c.args[0].id not in params:
+                continue
+            if name == "set_value":
+                return ("value", c.args[0].id)
+            if name == "set_error":
+                return ("error", c.args[0].id)
+        for c in q.calls(fi.node):
+            recv, name = q.attr_call(c)
+            if recv is None or q.dotted(recv) != "self" or not c.args or not isinstance(c.args[0], ast.Name) or c.args[0].id not in params:
+                continue
+            if fi.cls is None:
+                continue
+            t = fi.cls.find_method(name)
+            if t is not None and t is not fi:
+                r = self.completes_with(t, seen)
+                if r is not None and q.param_names(t.node)[1:2] == [r[1]]:
+                    return (r[0], c.args[0].id)
+        return None
+
+    def completing_calls(self, fi):
+        """[(cfg node, call, kind, value expr)] for the calls in fi that complete `self`."""
+        out = []
+        cfg = cfg_of(fi)
+        for n in cfg.nodes:
+            for c in kit.node_calls(n):
+                recv, name = q.attr_call(c)
+                if recv is None or q.dotted(recv) != "self" or not c.args:
+                    continue
+                if name == "set_value":
+                    out.append((n, c, "value", c.args[0]))
+                elif name == "set_error":
+                    out.append((n, c, "error", c.args[0]))
+                elif fi.cls is not None:
+                    t = fi.cls.find_method(name)
+                    if t is not None:
+                        r = self.completes_with(t)
+                        if r is not None and q.param_names(t.node)[1:2] == [r[1]]:
+                            out.append((n, c, r[0], c.args[0]))
+        return out
+
+    def accept_error_method(self):
+        """AsyncTask method that stamps an error with the accepting task (<param>._task = self)."""
+        def find():
+            out = []
+            for m in self.AsyncTask.methods.values():
+                ps = q.param_names(m.node)
+                for n in ast.walk(m.node):
+                    if isinstance(n, ast.Assign) and len(ps) > 1 and any(q.src(t) == "%s._task" % ps[1] for t in n.targets) and q.src(n.value) == "self":
+                        out.append(m)
+            if len(set(x.qualname for x in out)) != 1:
+                raise AnalysisError("role: expected one AsyncTask method stamping errors with their task, found %d" % len(out))
+            return out[0]
+        return self._memo("accept_error", find)
